@@ -20,12 +20,17 @@ func zzH_CLI() {
 		enc = NewHeaderEncoder("code")()
 	}
 	conn := NewConnWithCodec(NewClientCodec(&zzBytesCodec{}, enc, m, 64))
-	mode := vChoose("mode", 3)
+	mode := vChoose("mode", 3+vParam("cli.both", 0))
 	switch mode {
 	case 1:
 		conn.directIO = true
 	case 2:
 		conn.SetPipelining(true)
+	case 3:
+		// both options at once: still pipelining as far as ordering is concerned
+		conn.directIO = true
+		conn.SetPipelining(true)
+		mode = 2
 	}
 	if vParam("cli.symseq", 0) == 1 {
 		conn.seq = vU64("seq0")
@@ -169,7 +174,14 @@ func zzH_CLIb() {
 	m := newZZMsgs(8)
 	m.auto = true
 	m.yieldW = false
-	conn := NewConnWithCodec(NewClientCodec(&zzBytesCodec{}, nil, m, 64))
+	var body Codec = &zzBytesCodec{}
+	if vParam("clib.real", 0) == 1 {
+		body = &BYTESCodec{} // the library's own bytes codec (every value here is a *[]byte)
+	}
+	conn := NewConnWithCodec(NewClientCodec(body, nil, m, 64))
+	// the caller may decode every reply into one and the same variable, keeping the earlier values
+	var sharedReply []byte
+	sameVar := vParam("clib.real", 0) == 1 && vChoose("same-reply-variable", 2) == 1
 	switch vChoose("mode", 3) {
 	case 1:
 		conn.directIO = true
@@ -195,17 +207,21 @@ func zzH_CLIb() {
 				args = append(args, pad...)
 			}
 		}
-		var reply []byte
+		var replyVar []byte
+		rp := &replyVar
+		if sameVar {
+			rp = &sharedReply
+		}
 		var err error
 		switch vChoose("form", 3) {
 		case 0:
-			err = conn.Call("S.Echo", &args, &reply)
+			err = conn.Call("S.Echo", &args, rp)
 		case 1:
 			ctx := &zzCtx{done: make(chan struct{})}
 			if vChoose("ctxbuf", 2) == 1 {
 				ctx.buf = vBufferN("cbuf", 8)
 			}
-			err = conn.CallWithContext(ctx, "S.Echo", &args, &reply)
+			err = conn.CallWithContext(ctx, "S.Echo", &args, rp)
 			if ctx.buf != nil {
 				// the caller's buffer is the caller's again once the call has returned
 				full := ctx.buf[:cap(ctx.buf)]
@@ -217,6 +233,7 @@ func zzH_CLIb() {
 			vAssert(err == nil, "no-error")
 			continue
 		}
+		reply := *rp
 		vAssert(err == nil, "no-error")
 		if empty {
 			vAssert(len(reply) == 0, "reply-of-own-args")
